@@ -39,6 +39,7 @@ var TamperKinds = []string{
 	"wildcard-replay-other-nsec",  // same, with genuine NSEC/NSEC3 of another interval as "proof"
 	"wildcard-replay-forged-nsec", // same, with a forged unsigned NSEC owned outside the zone that spans the name
 	"dname-cname-prefix",          // DNAME answer: the unsigned synthesised CNAME's leading labels altered (suffix and length kept)
+	"forge-self-signer",           // answer data altered; its RRSIGs name the record's own owner as signer (a non-cut name inside the zone)
 }
 
 // DenialKinds are the C02 tamperings: every record they add is a genuine, correctly
@@ -55,6 +56,7 @@ var DenialKinds = []string{
 	"foreign-denial",        // denial records of a sibling/child zone
 	"forge-unsigned",        // answer data changed and everything DNSSEC stripped (pairs with nods-for-secure)
 	"wildcard-replay", "wildcard-replay-other-nsec", "wildcard-replay-forged-nsec",
+	"nx-retired-salt", // NXDOMAIN for a name that exists, "proven" with genuine NSEC3 records of the zone's previous chain (other salt, same length)
 }
 
 // Invalidating reports whether a kind makes the authenticated content of the targeted
@@ -231,6 +233,22 @@ func Apply(kind string, a *Answer, attacker, other *Zone) (*dns.Msg, bool) {
 			}
 			m.Extra = append(resign(ex), opt)
 		}
+	case "forge-self-signer":
+		if a.Kind != "answer" {
+			return nil, false
+		}
+		forged, ok := Apply("flip-rdata", a, attacker, other)
+		if !ok {
+			return nil, false
+		}
+		m = forged
+		m.Answer = mapSection(m.Answer, func(r dns.RR) dns.RR {
+			if s, ok := r.(*dns.RRSIG); ok {
+				s.SignerName = strings.ToLower(s.Hdr.Name)
+				changed = true
+			}
+			return r
+		})
 	case "sig-labels":
 		sigs(func(s *dns.RRSIG) dns.RR {
 			if s.Labels > 0 {
@@ -454,6 +472,61 @@ func Apply(kind string, a *Answer, attacker, other *Zone) (*dns.Msg, bool) {
 			pick = append(pick, z.nsecAt(n-1), z.nsecAt(0))
 		}
 		for _, d := range dedupRR(pick) {
+			m.Ns = append(m.Ns, withSig(z, d)...)
+		}
+		changed = true
+	case "nx-retired-salt":
+		// The zone re-salted its NSEC3 chain; the records of the retired chain are genuine and
+		// their signatures still valid. An interval of the retired ring "covers" any hash value,
+		// also the hashes the current salt gives to names that exist: a validator that lets the
+		// two chains pass as one set accepts the denial.
+		if a.Kind != "answer" || z == nil || !z.Signed || !z.NSEC3 || len(z.Salt) < 2 {
+			return nil, false
+		}
+		qn := dns.CanonicalName(m.Question[0].Name)
+		if qn == z.Name || !dns.IsSubDomain(z.Name, qn) {
+			return nil, false
+		}
+		ce, nc := z.Name, qn
+		for n := parentName(qn); dns.IsSubDomain(z.Name, n); n = parentName(n) {
+			if owner, ent := z.nameExists(n); owner || ent || n == z.Name {
+				ce = n
+				break
+			}
+			nc = n
+		}
+		ceRR := z.nsec3Matching(ce)
+		if ceRR == nil {
+			return nil, false
+		}
+		retired := *z
+		alt := []byte(z.Salt)
+		for i := range alt { // another salt of the same length
+			if alt[i] == 'a' {
+				alt[i] = 'b'
+			} else {
+				alt[i] = 'a'
+			}
+		}
+		retired.Salt, retired.n3 = string(alt), nil
+		cover := func(h string) dns.RR {
+			ch := retired.nsec3Chain()
+			idx := len(ch) - 1
+			for i := range ch {
+				if ch[i].hash < h {
+					idx = i
+				} else {
+					break
+				}
+			}
+			return retired.nsec3RR(idx)
+		}
+		m.Answer, m.Ns = nil, nil
+		m.Rcode = dns.RcodeNameError
+		soa := dns.Copy(z.soa()[0])
+		m.Ns = append(m.Ns, soa)
+		m.Ns = append(m.Ns, z.sigsFor([]dns.RR{soa})...)
+		for _, d := range dedupRR([]dns.RR{ceRR, cover(z.hash(nc)), cover(z.hash("*." + ce))}) {
 			m.Ns = append(m.Ns, withSig(z, d)...)
 		}
 		changed = true
